@@ -431,6 +431,107 @@ Proof.
   destruct (find_choice optN_eqb None M) as [f|]; [eauto|discriminate].
 Qed.
 
+Lemma ctx_pick_map {A B} (F : A -> B) k (cs : list (option Z * A)) :
+  ctx_pick k (map (fun c => (fst c, F (snd c))) cs) =
+  match ctx_pick k cs with Some a => Some (F a) | None => None end.
+Proof.
+  unfold ctx_pick. destruct k as [z|].
+  - rewrite (find_choice_map optZ_eqb F (Some z) cs), (find_choice_map optZ_eqb F None cs).
+    destruct (find_choice optZ_eqb (Some z) cs); [reflexivity|].
+    destruct (find_choice optZ_eqb None cs); reflexivity.
+  - rewrite (find_choice_map optZ_eqb F None cs).
+    destruct (find_choice optZ_eqb None cs); reflexivity.
+Qed.
+
+Lemma ctx_pick_in {A} k (cs : list (option Z * A)) a : ctx_pick k cs = Some a -> exists k', In (k', a) cs.
+Proof.
+  unfold ctx_pick. destruct k as [z|].
+  - destruct (find_choice optZ_eqb (Some z) cs) eqn:E.
+    + intros H; injection H as <-. destruct (find_choice_in _ _ _ _ E) as (k' & Hin & _). eauto.
+    + intros H. destruct (find_choice_in _ _ _ _ H) as (k' & Hin & _). eauto.
+  - intros H. destruct (find_choice_in _ _ _ _ H) as (k' & Hin & _). eauto.
+Qed.
+
+Lemma ctx_key_agree cs cd f : lookup f cs = lookup f cd -> ctx_key cs f = ctx_key cd f.
+Proof. unfold ctx_key. now intros ->. Qed.
+
+(* ---------- FlagSwitch ---------- *)
+
+Lemma fsdomb_keys e pod c cs : forall z kvs n,
+  fsdomb (map (fun c' => (fst (fst c'), snd (fst c'), domb e pod (snd c') c)) cs) z kvs = true ->
+  memN n (map (fun c' => fst (fst c')) cs) = false -> lookup n kvs = None.
+Proof.
+  induction cs as [|[[n0 cz] s0] cs IH]; intros z kvs n Hd Hn.
+  - cbn in Hd. destruct kvs; [reflexivity|discriminate].
+  - cbn [map fst snd] in Hn. rewrite memN_cons in Hn. apply orb_false_iff in Hn as [Hnf Hn].
+    cbn [map fsdomb fst snd] in Hd. destruct (Z.eqb (Z.land z cz) 0).
+    + now apply (IH z).
+    + destruct kvs as [|[n' x] kvs']; [discriminate|].
+      apply andb_prop in Hd as [Hd Ht]. apply andb_prop in Hd as [He _].
+      apply N.eqb_eq in He. subst n'. cbn [lookup]. rewrite Hnf. now apply (IH z).
+Qed.
+
+Lemma rt_choices e pod c1 c2 cs : Forall (fun c' => rt_at e pod (snd c')) cs ->
+  (forall c', In c' cs -> agree (refs (snd c')) c1 c2) ->
+  forall z full kvs b rest,
+    forallb (fun c' => wf (snd c')) cs = true ->
+    butlast_all (map (fun c' => delimited (snd c')) cs) = true ->
+    nodupN (map (fun c' => fst (fst c')) cs) = true ->
+    fsdomb (map (fun c' => (fst (fst c'), snd (fst c'), domb e pod (snd c') c1)) cs) z kvs = true ->
+    (forall n, memN n (map (fun c' => fst (fst c')) cs) = true -> lookup n full = lookup n kvs) ->
+    ser_choices (map (fun c' => (fst (fst c'), ser e (snd c') c1)) cs) full = Some b ->
+    (forallb (fun c' => delimited (snd c')) cs = true \/ rest = []) ->
+    de_choices (map (fun c' => (fst (fst c'), snd (fst c'), de e pod (snd c') c2)) cs) z (b ++ rest)
+    = Some (kvs, rest).
+Proof.
+  induction 1 as [|[[n cz] s] cs Hs _ IH]; intros Hag z full kvs b rest Hwf Hbl Hnd Hd Hlk Hser Hr.
+  - cbn in Hd. destruct kvs; [|discriminate]. injection Hser as <-. reflexivity.
+  - cbn [snd] in Hs. cbn [map ser_choices fst snd] in Hser. cbn [forallb snd] in Hwf.
+    apply andb_prop in Hwf as [Hwfs Hwf].
+    cbn [map nodupN fst snd] in Hnd. apply andb_prop in Hnd as [Hnin Hnd]. apply negb_true_iff in Hnin.
+    assert (Hbl' : butlast_all (map (fun c' => delimited (snd c')) cs) = true).
+    { destruct cs as [|c2' cs']; [reflexivity|].
+      cbn [map] in Hbl. rewrite butlast_all_cons in Hbl. now apply andb_prop in Hbl as [_ Hbl]. }
+    assert (Hr' : forallb (fun c' => delimited (snd c')) cs = true \/ rest = []).
+    { destruct Hr as [Hr|Hr]; [left|right; exact Hr].
+      cbn [forallb] in Hr. now apply andb_prop in Hr as [_ Hr]. }
+    assert (Hhead : forall b2, (cs = [] -> b2 = []) -> delimited s = true \/ b2 ++ rest = []).
+    { intros b2 Hb2. destruct cs as [|c2' cs'].
+      - rewrite (Hb2 eq_refl). cbn [app].
+        destruct Hr as [Hr|Hr]; [left|right; exact Hr].
+        cbn in Hr. now rewrite andb_true_r in Hr.
+      - cbn [map snd] in Hbl. rewrite butlast_all_cons in Hbl. apply andb_prop in Hbl as [Hbl _].
+        now left. }
+    assert (Hself : memN n (map (fun c' => fst (fst c')) ((n, cz, s) :: cs)) = true).
+    { cbn [map fst]. rewrite memN_cons, N.eqb_refl. reflexivity. }
+    assert (Hsub : forall m, memN m (map (fun c' => fst (fst c')) cs) = true ->
+                             memN m (map (fun c' => fst (fst c')) ((n, cz, s) :: cs)) = true).
+    { intros m Hm. cbn [map fst]. rewrite memN_cons, Hm. apply orb_true_r. }
+    assert (Hag' : forall c', In c' cs -> agree (refs (snd c')) c1 c2) by (intros c' Hc; apply Hag; now right).
+    pose proof (Hag _ (or_introl eq_refl)) as Hags. cbn [snd] in Hags.
+    cbn [map fsdomb fst snd] in Hd. cbn [map de_choices fst snd].
+    destruct (Z.eqb (Z.land z cz) 0).
+    + (* not selected *)
+      pose proof (fsdomb_keys e pod c1 cs z kvs n Hd Hnin) as Hnone.
+      rewrite (Hlk n Hself), Hnone in Hser.
+      apply (IH Hag' z full kvs b rest Hwf Hbl' Hnd Hd); [|exact Hser|exact Hr'].
+      intros m Hm. apply Hlk, Hsub, Hm.
+    + destruct kvs as [|[n' x] kvs']; [discriminate|].
+      apply andb_prop in Hd as [Hd Ht]. apply andb_prop in Hd as [He Hdx].
+      apply N.eqb_eq in He. subst n'.
+      rewrite (Hlk n Hself) in Hser. cbn [lookup] in Hser. rewrite N.eqb_refl in Hser.
+      destruct (ser e s c1 x) as [b1|] eqn:E1; [|discriminate].
+      destruct (ser_choices (map (fun c' => (fst (fst c'), ser e (snd c') c1)) cs) full) as [b2|] eqn:E2;
+        [|discriminate].
+      injection Hser as <-. rewrite <- app_assoc.
+      assert (Hb2 : cs = [] -> b2 = []) by (intros ->; cbn in E2; now injection E2 as <-).
+      rewrite (Hs c1 c2 x b1 (b2 ++ rest) Hwfs Hags Hdx E1 (Hhead b2 Hb2)).
+      rewrite (IH Hag' z full kvs' b2 rest Hwf Hbl' Hnd Ht); [reflexivity| |exact E2|exact Hr'].
+      intros m Hm. rewrite (Hlk m (Hsub m Hm)). cbn [lookup].
+      destruct (m =? n) eqn:E; [|reflexivity].
+      apply N.eqb_eq in E. subst m. rewrite Hm in Hnin. discriminate.
+Qed.
+
 Lemma optN_eqb_eq a b : optN_eqb a b = true -> a = b.
 Proof.
   destruct a, b; cbn; try discriminate; try reflexivity. intros H. apply N.eqb_eq in H. now subst.
@@ -595,6 +696,46 @@ Proof.
     + injection Hs as <-. apply is_none_eq in Hd. subst v. reflexivity.
     + apply (IHs c1 c2 v b rest Hwf); [|exact Hd|exact Hs|exact Hr].
       intros n Hn. apply Hag. now right.
+  - (* context switch: the branch is chosen by a sibling that both sides see *)
+    intros c1 c2 v b rest Hwf Hag Hd Hs Hr. cbn [ser de domb wf delimited refs] in *.
+    rewrite <- (ctx_key_agree c1 c2 f (Hag f (or_introl eq_refl))).
+    destruct (ctx_key c1 f) as [k|]; [|discriminate].
+    pose proof (ctx_pick_map (fun s0 => ser e s0 c1) k cs) as Fs. cbv beta in Fs. rewrite Fs in Hs. clear Fs.
+    pose proof (ctx_pick_map (fun s0 => domb e pod s0 c1) k cs) as Fd. cbv beta in Fd. rewrite Fd in Hd. clear Fd.
+    pose proof (ctx_pick_map (fun s0 => de e pod s0 c2) k cs) as Fde. cbv beta in Fde. rewrite Fde. clear Fde.
+    destruct (ctx_pick k cs) as [s'|] eqn:Ep; [|discriminate].
+    destruct (ctx_pick_in _ _ _ Ep) as (k' & Hin).
+    rewrite Forall_forall in H. pose proof (H _ Hin) as IH'. cbn [snd] in IH'.
+    rewrite forallb_forall in Hwf. pose proof (Hwf _ Hin) as Hwf'. cbn [snd] in Hwf'.
+    assert (Hr' : delimited s' = true \/ rest = []).
+    { destruct Hr as [Hr|Hr]; [left|now right].
+      rewrite forallb_forall in Hr. exact (Hr _ Hin). }
+    assert (Hag' : agree (refs s') c1 c2).
+    { intros n Hn. apply Hag. right. apply in_flat_map. exists (k', s'). split; [exact Hin|exact Hn]. }
+    exact (IH' c1 c2 v b rest Hwf' Hag' Hd Hs Hr').
+  - (* context adapter *)
+    intros c1 c2 v b rest Hwf Hag Hd Hs Hr. cbn [ser de domb wf delimited refs] in *.
+    rewrite <- (ctx_key_agree c1 c2 f (Hag f (or_introl eq_refl))).
+    destruct (ctx_key c1 f) as [k|]; [|discriminate].
+    assert (Hag' : agree (refs s) c1 c2) by (intros n Hn; apply Hag; now right).
+    destruct (ctx_pick k opts) as [[a|]|]; try discriminate.
+    + destruct (adapter_law_s a pod _ v Hd) as (z & Henc & HD & Hdec).
+      rewrite Henc in Hs. rewrite (IHs c1 c2 (VInt z) b rest Hwf Hag' HD Hs Hr). now rewrite Hdec.
+    + now rewrite (IHs c1 c2 v b rest Hwf Hag' Hd Hs Hr).
+  - (* flag switch *)
+    intros c1 c2 v b rest Hwf Hag Hd Hs Hr. cbn [ser de domb wf delimited refs] in *.
+    destruct v as [| | | | | | | | |kvs]; try discriminate.
+    destruct (flag_or tbl (map (fun kv => VName (fst kv)) kvs)) as [z|]; [|discriminate].
+    apply andb_prop in Hd as [_ Hd].
+    apply andb_prop in Hwf as [Hwf Hnd]. apply andb_prop in Hwf as [Hwf Hbl].
+    destruct (enc_int e ip z) as [h|] eqn:Eh; [|discriminate].
+    destruct (ser_choices (map (fun c' => (fst (fst c'), ser e (snd c') c1)) cs) kvs) as [r|] eqn:Er;
+      [|discriminate].
+    injection Hs as <-. rewrite <- app_assoc, (dec_enc_int _ _ _ _ _ Eh).
+    rewrite (rt_choices e pod c1 c2 cs H
+               (fun c' Hc n Hn => Hag n ltac:(apply in_flat_map; exists c'; split; [exact Hc|exact Hn]))
+               z kvs kvs r rest Hwf Hbl Hnd Hd (fun n _ => eq_refl) Er Hr).
+    reflexivity.
 Qed.
 
 (* ---------- corollaries: windows and composition ---------- *)
